@@ -74,6 +74,8 @@ def setup(ctx):
 
 def set_fs(rng):
     fs = float(rng.choice([1e9, 1.6e10, 8e10, 1e12]))
+    if rng.integers(8) == 0:      # "all sampling rates"
+        fs = float(rng.choice([16.0, 1000.0, 44100.0, 1e15]))
     with core.quiet():
         if rng.integers(4) == 0:      # a sampling rate that is not an integer multiple of the slot rate: everything follows gv.fs, not sps*R
             T.gv(R=fs / float(rng.choice([2.5, 3.3, 7.6])), fs=fs)
@@ -173,37 +175,42 @@ def w_invariance(ctx, rng, i):
     x = make_field(rng, n, n_pol, False, amp)
     p = rand_case(rng)
     BW = float(rng.uniform(0.05, 0.45)) * fs
-    ctx.describe(n=n, n_pol=n_pol, fs=fs, **p)
+    if i % 4 == 1:       # "BW in (0, fs/2)": a detector that is very slow compared with the sampling rate (numerically the hard end for a recursive filter)
+        BW = fs * float(10 ** rng.uniform(-5, -2))
+    # a recursive low-pass whose poles sit (BW/fs) away from z = 1 amplifies rounding by about (fs/BW)^2 (measured on the pinned tree:
+    # 6e-12 at BW/fs = 1e-3, 3e-8 at 1e-5); 1e-15 (fs/BW)^2 leaves two to three decades of margin
+    tol = max(1e-9, 1e-15 * (fs / BW) ** 2)
+    ctx.describe(n=n, n_pol=n_pol, fs=fs, BW_over_fs=BW / fs, **p)
     with core.quiet():
         base = D.PD(x, BW, p["r"], p["T"], p["R_load"], "ase-only", p["i_dark"]).signal
         sc = float(np.max(np.abs(base)))
         # global and time-varying phase
         ph = np.exp(1j * (rng.uniform(0, 6) + np.cumsum(rng.normal(0, 0.5, n))))
         y = D.PD(T.optical_signal(x.signal * ph), BW, p["r"], p["T"], p["R_load"], "ase-only", p["i_dark"]).signal
-        ctx.check("invariance", relerr(y, base, floor=sc) <= 1e-9, "PD output changes under a phase rotation of the field")
+        ctx.check("invariance", relerr(y, base, floor=sc) <= tol, "PD output changes under a phase rotation of the field")
         if n_pol == 2:
             a, b = rng.normal(0, 1, 2) + 1j * rng.normal(0, 1, 2)
             nrm = np.sqrt(abs(a) ** 2 + abs(b) ** 2)
             U = np.array([[a, b], [-np.conj(b), np.conj(a)]]) / nrm * np.exp(1j * rng.uniform(0, 6))
             y = D.PD(T.optical_signal(U @ x.signal), BW, p["r"], p["T"], p["R_load"], "ase-only", p["i_dark"]).signal
-            ctx.check("invariance", relerr(y, base, floor=sc) <= 1e-9, "PD output changes under a unitary rotation of the polarisation state")
+            ctx.check("invariance", relerr(y, base, floor=sc) <= tol, "PD output changes under a unitary rotation of the polarisation state")
         else:   # a 1-pol field equals the same field in x with an empty y
             y = D.PD(T.optical_signal(np.stack([x.signal, np.zeros(n)])), BW, p["r"], p["T"], p["R_load"], "ase-only", p["i_dark"]).signal
-            ctx.check("invariance", relerr(y, base, floor=sc) <= 1e-9, "1-pol field and the same field with an empty y-polarisation detect differently")
+            ctx.check("invariance", relerr(y, base, floor=sc) <= tol, "1-pol field and the same field with an empty y-polarisation detect differently")
         # scaling laws
         k = float(rng.uniform(0.2, 3))
         r2 = min(1.0, p["r"] * float(rng.uniform(0.2, 1.0)))
         y = D.PD(x, BW, r2, p["T"], p["R_load"], "ase-only", p["i_dark"]).signal
-        ctx.check("scaling", relerr(y, base * r2 / p["r"], floor=sc) <= 1e-9, "PD signal is not linear in r")
+        ctx.check("scaling", relerr(y, base * r2 / p["r"], floor=sc) <= tol, "PD signal is not linear in r")
         y = D.PD(x, BW, p["r"], p["T"], p["R_load"] * k, "ase-only", p["i_dark"]).signal
-        ctx.check("scaling", relerr(y, base * k, floor=sc * k) <= 1e-9, "PD signal is not linear in R_load")
+        ctx.check("scaling", relerr(y, base * k, floor=sc * k) <= tol, "PD signal is not linear in R_load")
         y = D.PD(T.optical_signal(x.signal * k), BW, p["r"], p["T"], p["R_load"], "ase-only", p["i_dark"]).signal
-        ctx.check("scaling", relerr(y, base * k * k, floor=sc * k * k) <= 1e-9, "PD signal is not quadratic in the field amplitude")
+        ctx.check("scaling", relerr(y, base * k * k, floor=sc * k * k) <= tol, "PD signal is not quadratic in the field amplitude")
         # CW field of power P -> constant r*P*R_load
         P = float(10 ** rng.uniform(-6, -1))
         cw = np.sqrt(P / n_pol) * np.exp(1j * rng.uniform(0, 6, (n_pol, 1))) * np.ones((n_pol, n))
         y = D.PD(T.optical_signal(cw if n_pol == 2 else cw[0]), BW, p["r"], p["T"], p["R_load"], "all", p["i_dark"]).signal
-        ctx.check("cw_gain", np.allclose(y, p["r"] * P * p["R_load"], rtol=1e-9, atol=0), f"CW power {P} W does not give the constant voltage r*P*R_load (got {y[n // 2]!r}, want {p['r'] * P * p['R_load']!r})")
+        ctx.check("cw_gain", np.allclose(y, p["r"] * P * p["R_load"], rtol=tol, atol=0), f"CW power {P} W does not give the constant voltage r*P*R_load (got {y[n // 2]!r}, want {p['r'] * P * p['R_load']!r})")
     ctx.case(("inv", n_pol, n, fs, round(np.log10(p["R_load"]))), sample=dict(n=n, n_pol=n_pol, fs=fs, **p) if i < 3 else None)
 
 
